@@ -205,6 +205,7 @@ func runCheck(o *checkOpts) *CheckReport {
 					Workers:       optInt(hd.Opts, o.tier, "workers", 4),
 					BranchTO:      time.Duration(optInt(hd.Opts, o.tier, "branchto", 10)) * time.Second,
 					AssertTO:      time.Duration(optInt(hd.Opts, o.tier, "assertto", 60)) * time.Second,
+					MaxWall:       time.Duration(optInt(hd.Opts, o.tier, "wall", map[string]int{"quick": 240, "thorough": 1500}[o.tier])) * time.Second,
 					CrossEach:     optInt(hd.Opts, o.tier, "cross", map[string]int{"quick": 0, "thorough": 0}[o.tier]),
 				}
 				hr := newHarnessResult(name)
